@@ -589,7 +589,8 @@ Record cn_case := mkCn {
   cn_connects : list (N * N);          (* ConnectRequests at the broker: (dial attempt, token number) *)
   cn_tokens : N;                       (* TokenSource.Token() calls *)
   cn_resumes : list (N * N * bool);    (* resume requests: (wire incarnation, stream, downstream), sorted *)
-  cn_resume_ids_ok : bool;             (* every resume request carried a known stream id (downstream: its original alias) *)
+  cn_resume_ids_ok : bool;             (* every resume request carried a known stream id (downstream: its original alias)
+                                          and no two downstreams of the connection share a stream id alias *)
   cn_disc : N; cn_reconn : N;          (* handler calls before the final Close *)
   cn_resumed : list N;                 (* resumed events (stream), sorted *)
   cn_sclosed : list (N * bool);        (* stream closed events (stream, with error), sorted *)
@@ -632,8 +633,9 @@ Definition c05_ok (c : cn_case) : bool :=
   && forallb (fun f => (snd f =? 0) || ((snd f =? 2) && existsb (N.eqb (fst f)) (cn_excused c))) (cn_finals c)
   && forallb (fun e => snd e && existsb (N.eqb (fst e)) (cn_excused c)) (cn_sclosed c)
   && cn_resume_ids_ok c
-  (* no request failed with a connection error; open and metadata calls succeeded *)
-  && forallb (fun r => negb (snd r =? 2)) (cn_rets c)
+  (* the user never closed: every open / metadata / call returned nil, or - a call whose ack was lost
+     with the link - its own context error; never a connection error or any other error *)
+  && forallb (fun r => (snd r =? 0) || (snd r =? 5)) (cn_rets c)
   (* notifications once per outage *)
   && (cn_disc c =? cn_reconn c)
   && forallb (fun f => count_eq (fst f) (cn_resumed c) <=? cn_reconn c) (cn_finals c)
